@@ -521,7 +521,15 @@ def k_num(c, S):
     r = c.rng
     lo = r.randrange(-2, 5)
     hi = lo + r.randrange(0, 5)
-    if r.random() < 0.15:
+    wide = r.random() < 0.08
+    if wide:
+        # integer bounds around the 32/53/63/64-bit limits: integer-versus-integer comparison is exact in the specification and in the
+        # reference (Python int); everything stays inside [-2^63, 2^64-1] so that both sides are native integers in jsoncons
+        base = r.choice([2 ** 31, 2 ** 32, 2 ** 53, 2 ** 63 - 4, 2 ** 63, 2 ** 64 - 6, -2 ** 63 + 3, -2 ** 31, -2 ** 53])
+        lo = base + r.randrange(-2, 3)
+        hi = min(lo + r.randrange(0, 3), 2 ** 64 - 1)
+        lo = max(lo, -2 ** 63)
+    elif r.random() < 0.15:
         lo, hi = lo + 0.5, hi + 0.5
     for _ in range(r.randrange(1, 4)):
         k = r.randrange(5)
@@ -543,7 +551,7 @@ def k_num(c, S):
                     S["exclusiveMaximum"] = r.random() < 0.8
             else:
                 S["exclusiveMaximum"] = hi
-        elif k == 4 and c.ok("multipleOf"):
+        elif k == 4 and c.ok("multipleOf") and not wide:
             S["multipleOf"] = r.choice([1, 2, 2, 3, 5]) if not (c.ext and r.random() < 0.4) else r.choice([0.1, 0.01, 1.5, 0.5, 1e-8])
 
 
@@ -729,6 +737,18 @@ def g_schema(c, depth, guarded, hint=None):
     r = c.rng
     if c.n >= 6 and c.ok("boolean") and r.random() < (0.2 if depth <= 0 else 0.05):
         return r.random() < 0.65
+    if c.n >= 2019 and r.random() < 0.05:
+        # a subschema that consists of nothing but an unevaluated* keyword (it still constrains: everything is unevaluated there)
+        if r.random() < 0.5 and c.ok("unevaluatedProperties") and c.uneval_props:
+            B = {"unevaluatedProperties": False if (r.random() < 0.7 or depth <= 0) else (True if c.bool_ap else g_schema(c, depth - 1, True))}
+        elif c.ok("unevaluatedItems") and c.arr_mode != "contains":
+            B = {"unevaluatedItems": False if (r.random() < 0.7 or depth <= 0) else g_schema(c, depth - 1, True)}
+        else:
+            B = None
+        if B is not None:
+            if r.random() < 0.2:
+                B["title"] = "t"
+            return B
     S = {}
     if r.random() < 0.06:
         ak = r.choice(["title", "description", "default", "x-unknown"] + (["$comment"] if c.n >= 7 else []))
@@ -898,7 +918,9 @@ class Sampler:
         cands = []
         for k in ("minimum", "maximum", "exclusiveMinimum", "exclusiveMaximum"):
             b = V.get(k)
-            if isinstance(b, (int, float)) and not isinstance(b, bool):
+            if isinstance(b, int) and not isinstance(b, bool) and abs(b) > 2 ** 52:
+                cands += [x for x in (b - 1, b, b, b + 1) if -2 ** 63 <= x <= 2 ** 64 - 1]     # integers only: a float neighbour is not exact there
+            elif isinstance(b, (int, float)) and not isinstance(b, bool):
                 cands += [b - 1, b, b + 1, b - 0.5, b + 0.5]
         m = V.get("multipleOf")
         if isinstance(m, int) and not isinstance(m, bool) and m > 0:
